@@ -583,6 +583,10 @@ func targetedCloseFromClosedHandler(c *core.Ctx, variant int) {
 }
 
 func c15Targeted(c *core.Ctx) {
+	c.SectionSerial("targeted-closed-client-collected", 2, func(i int64, _ *gen.Rand) {
+		targetedClosedClientCollected(c, int(i))
+		c.Distinct(uint64(i) | 22<<50)
+	})
 	c.Section("targeted-noconnclose-timeout-reads", 2, func(i int64, _ *gen.Rand) {
 		targetedNoConnCloseTimeoutReads(c, int(i))
 		c.Distinct(uint64(i) | 19<<50)
@@ -1007,4 +1011,45 @@ func targetedBuffersNotShared(c *core.Ctx, rounds int) {
 		_, _, _ = rc.close(), ra.close(), rb.close()
 	}
 	c.Count("targeted.buffers_not_shared_rounds", int64(rounds))
+}
+
+// targetedClosedClientCollected: a client that was closed properly is dropped and garbage collected (its finalizer, which
+// the rigs otherwise switch off, is left in place): the connection has been closed exactly once and stays that way.
+func targetedClosedClientCollected(c *core.Ctx, variant int) {
+	c.Eval(1)
+	conns := make([]*sim.Conn, 8)
+	for k := range conns {
+		w := sim.NewWorld()
+		conn := sim.NewConn(w)
+		conns[k] = conn
+		opts := []stun.ClientOption{stun.WithClock(sim.Clock{W: w}), stun.WithCollector(&sim.Collector{W: w})}
+		if variant&1 == 1 {
+			opts = append(opts, stun.WithNoRetransmit)
+		}
+		cl, err := stun.NewClient(conn, opts...)
+		if err != nil {
+			c.Violate("newclient", "newclient", err.Error())
+
+			return
+		}
+		_ = cl.Start(request(seqTID(int8(k%3)), 24, byte(k)), func(stun.Event) {})
+		if err := cl.Close(); err != nil {
+			c.Violate("close-result", "close-result", map[string]interface{}{"problem": err.Error()})
+
+			return
+		}
+	}
+	for round := 0; round < 4; round++ {
+		runtime.GC()
+		time.Sleep(5 * time.Millisecond)
+	}
+	for k, conn := range conns {
+		if n := atomic.LoadInt32(&conn.CloseCalls); n != 1 {
+			c.Violate("conn-close-count", "conn-close-count:after-collection", map[string]interface{}{
+				"problem": fmt.Sprintf("client %d was closed once by its owner and then dropped; after garbage collection its connection has seen %d Close calls", k, n)})
+
+			return
+		}
+	}
+	c.Count("targeted.closed_clients_collected", int64(len(conns)))
 }
